@@ -330,6 +330,18 @@ for active in (0, 1):
         c.ensures('touches-nothing', "self._active_agent is old(self._active_agent) and same_agents(self._queue, old(self._queue)) and len(self._background) == len(old(self._background))")
 
 
+# ---- has_jobs: "no jobs" exactly when nothing is queued, nothing runs in the queue's slot and nothing runs in the background
+for q in (0, 1, 2, 'any+'):
+    for active in (0, 1):
+        for nbg in (0, 1):
+            c = contract(JC, 'JobControl.has_jobs', serves=['C08'], name='JobControl.has_jobs[queue=%s,active=%d,background=%d]' % (q, active, nbg))
+            def _setup(b, case, q=q, active=active, nbg=nbg):
+                jc, qq, act = job_control(b, q, active, nbg=nbg)
+                return {'self': jc}
+            c.setup(_setup)
+            c.ensures('jobs-iff-anything-queued-active-or-in-the-background', 'result is %s' % (q != 0 or bool(active) or bool(nbg)))
+            c.ensures('touches-nothing', "self._active_agent is old(self._active_agent) and same_agents(self._queue, old(self._queue)) and len(self._background) == len(old(self._background))")
+
 # ---- clear_queue (stop-all clears the queue first): the waiting jobs are dropped, the running ones are not touched
 c = contract(JC, 'JobControl.clear_queue', serves=['C08', 'C09', 'C20'])
 def _setup(b, case):
